@@ -235,7 +235,37 @@ def run_case(case):
         ndev = rng.randint(0, len(a.disks) + a.nlev)
         devs = rng.sample([("data", d) for d in a.disks] + [("parity", l) for l in range(a.nlev)], ndev)
         dmg_desc = []
-        if phase3_new and rng.random() < 0.7:
+        targeted = False
+        if phase3_new and rng.random() < 0.45:
+            # a late (recorded, never synced) file is lost TOGETHER with as many synced files of its stripes as there are
+            # parity levels: more unknowns than parities unless the never-synced block is treated as what it was before
+            sm_ = c.stripe_map()
+            for (d3, nm) in rng.sample(phase3_new, len(phase3_new)):
+                rec = [f for f in c.files if f.sub == nm and name2idx[c.disk_name(f.disk)] == d3]
+                if not rec or not rec[0].blocks or any(b[1] == BLK for b in rec[0].blocks):
+                    continue
+                mates = {}
+                for (pos, _st, _h) in rec[0].blocks:
+                    for e in sm_.get(pos, []):
+                        if e[1] == "file" and e[4] == BLK and e[2] is not rec[0]:
+                            mates.setdefault(name2idx[c.disk_name(e[0])], e[2])
+                if len(mates) >= a.nlev:
+                    try:
+                        os.unlink(fs.path(d3, nm))
+                    except OSError:
+                        continue
+                    dmg_desc.append(("delete-late-file", a.disk_names[d3]))
+                    for dm in rng.sample(sorted(mates), a.nlev):
+                        try:
+                            os.unlink(os.path.join(os.fsencode(a.ddir(dm)), mates[dm].sub))
+                            dmg_desc.append(("delete-synced-stripe-mate", a.disk_names[dm]))
+                        except OSError:
+                            pass
+                    devs = []
+                    targeted = True
+                    res["counters"]["late_file_lost_with_stripe_mates"] = 1
+                    break
+        if phase3_new and not targeted and rng.random() < 0.7:
             for (d3, nm) in phase3_new:
                 if rng.random() < 0.7:
                     try:
